@@ -145,6 +145,7 @@ ADD7 = {
  "C13": " Round 7: enumerate_files fails only for file-system failures (R-C13-dir); no panic-capable construct in cli.rs/main (R-C13-panic).",
  "C15": " Round 7: a `//` comment token excludes its line break (R-C15-linecomment); R-C15-comment.",
 }
+ADD8 = {p: " Round 8: rules are evaluated on functions with same-file helpers spliced in and on function+closure units where that matters; the thorough tier also applies 45 behaviour-preserving patches (neutral/) and fails on any report (T-neutral)." for p in ["C%02d" % i for i in range(1, 16)]}
 NA_REASON = "check not built yet (round 1 in progress); see DESIGN.md section 3 for the planned static rules"
 props = [json.loads(l) for l in open("/verif/properties.jsonl")]
 checks = []
@@ -159,7 +160,7 @@ for p in props:
         "evidence_file": "/verif/evidence/%s.json" % p["id"],
         "replay_cmd_template": "./check %s --replay {path}" % p["id"],
         "engine": "mirfacts+rules",
-        "level_claimed": {"category": "other", "text": c["text"] + ADD.get(p["id"], "") + ADD3.get(p["id"], "") + ADD4.get(p["id"], "") + ADD5.get(p["id"], "") + ADD6.get(p["id"], "") + ADD7.get(p["id"], ""), "design_ref": c["design"] + ", R2, R3, R4, R5, R6, R7"},
+        "level_claimed": {"category": "other", "text": c["text"] + ADD.get(p["id"], "") + ADD3.get(p["id"], "") + ADD4.get(p["id"], "") + ADD5.get(p["id"], "") + ADD6.get(p["id"], "") + ADD7.get(p["id"], "") + ADD8.get(p["id"], ""), "design_ref": c["design"] + ", R2, R3, R4, R5, R6, R7, R8"},
         "level_note": NOTE,
         "technique": c["technique"],
     })
